@@ -7,7 +7,8 @@ NONDET_CALLS = {'hash', 'id', 'dtimer', 'getpid', 'listdir', 'urandom', 'uuid1',
 SET_MAKERS = {'set', 'frozenset'}
 SET_METHODS = {'union', 'difference', 'intersection', 'symmetric_difference', 'copy'}
 ORDER_INSENSITIVE = {'sorted', 'len', 'min', 'max', 'sum', 'any', 'all', 'set', 'frozenset', 'bool', 'issubset', 'issuperset', 'isdisjoint'}
-ITER_CONSUMERS = {'list', 'tuple', 'enumerate', 'zip', 'map', 'filter', 'iter', 'next', 'reversed', 'join', 'extend', 'deque'}
+ITER_CONSUMERS = {'list', 'tuple', 'enumerate', 'zip', 'map', 'filter', 'iter', 'next', 'reversed', 'join', 'extend', 'deque',
+                  'combinations', 'permutations', 'product', 'chain', 'combinations_with_replacement', 'islice', 'accumulate', 'reduce', 'OrderedDict', 'dict'}
 
 
 def is_set_expr(e, setvars):
